@@ -103,6 +103,48 @@ type OmitT struct {
 	Z int8           `nbt:"z"`
 }
 
+// Embedding chains of depth 1..4 with two fields at every level (field index paths of every
+// length; the innermost struct has several fields so that shared index slices show).
+type E4 struct {
+	X4 int32 `nbt:"x4"`
+	Y4 int16 `nbt:"y4"`
+	Z4 string
+}
+type E3 struct {
+	E4
+	X3 int32 `nbt:"x3"`
+	Y3 int8  `nbt:"y3"`
+}
+type E2 struct {
+	E3
+	X2 int64 `nbt:"x2"`
+	Y2 string
+}
+type E1 struct {
+	E2
+	X1 int8  `nbt:"x1"`
+	Y1 int16 `nbt:"y1"`
+}
+type E0 struct {
+	E1
+	X0 string `nbt:"x0"`
+	Y0 int32  `nbt:"y0"`
+}
+
+// The same chain through pointers.
+type P3 struct {
+	*E4
+	X3 int32 `nbt:"x3"`
+}
+type P2 struct {
+	*P3
+	X2 int64 `nbt:"x2"`
+}
+type P1 struct {
+	*P2
+	X1 int8 `nbt:"x1"`
+}
+
 // CatItem is one catalogue entry: Value encodes (documented rules) to Want.
 type CatItem struct {
 	Name  string
@@ -150,6 +192,16 @@ func Catalogue() []CatItem {
 			comp("V", i64(2)), false},
 		{"embedded-with-name-is-a-field", NamedEmbed{Inner{1, "s"}, 2}, func() any { return new(NamedEmbed) },
 			comp("in", comp("a", i32(1), "S", str("s")), "b", i8(2)), true},
+		{"embedding-depth-1", E3{E4{1, 2, "z"}, 3, 4}, func() any { return new(E3) },
+			comp("x4", i32(1), "y4", i16(2), "Z4", str("z"), "x3", i32(3), "y3", i8(4)), true},
+		{"embedding-depth-2", E2{E3{E4{1, 2, "z"}, 3, 4}, 5, "y"}, func() any { return new(E2) },
+			comp("x4", i32(1), "y4", i16(2), "Z4", str("z"), "x3", i32(3), "y3", i8(4), "x2", i64(5), "Y2", str("y")), true},
+		{"embedding-depth-3", E1{E2{E3{E4{1, 2, "z"}, 3, 4}, 5, "y"}, 6, 7}, func() any { return new(E1) },
+			comp("x4", i32(1), "y4", i16(2), "Z4", str("z"), "x3", i32(3), "y3", i8(4), "x2", i64(5), "Y2", str("y"), "x1", i8(6), "y1", i16(7)), true},
+		{"embedding-depth-4", E0{E1{E2{E3{E4{1, 2, "z"}, 3, 4}, 5, "y"}, 6, 7}, "s", 8}, func() any { return new(E0) },
+			comp("x4", i32(1), "y4", i16(2), "Z4", str("z"), "x3", i32(3), "y3", i8(4), "x2", i64(5), "Y2", str("y"), "x1", i8(6), "y1", i16(7), "x0", str("s"), "y0", i32(8)), true},
+		{"embedding-pointer-chain-depth-3", P1{&P2{&P3{&E4{1, 2, "z"}, 3}, 5}, 6}, func() any { return new(P1) },
+			comp("x4", i32(1), "y4", i16(2), "Z4", str("z"), "x3", i32(3), "x2", i64(5), "x1", i8(6)), true},
 		{"text-marshaler", WithText{Text{1, 2}}, func() any { return new(WithText) },
 			comp("t", str("x,y")), false},
 		{"named-string-with-methods", WithColor{"red"}, func() any { return new(WithColor) },
